@@ -1,59 +1,183 @@
 """C11 -- worker restarts are rate limited and the budget is restored."""
 from pyvc.api import *
+import pool_shared as ps
 
 PROP = 'C11'
+REPLAYERS = {'common.restart_state.step': 'replayers/restart_state.py',
+             'common.restart_state.__init__': 'replayers/restart_state.py'}
+
+ASSUMPTIONS = [
+    'A-float: clock arithmetic is exact (SMT reals); IEEE rounding of monotonic() differences is not modelled',
+    'time.monotonic() is positive and non-decreasing (assumed contract); step() is only called with now=None by billiard (call sites checked: _repopulate_pool)',
+    'process creation (_create_worker_process) is an assumed contract: one fork, appends one worker, does not touch the limiter',
+    'A-atomic: handlers (supervision tick, on_ack) do not interleave below handler granularity',
+]
+OUT_OF_REACH = []
+TRUSTED = ['lemmas_C11.window_step / first_step are proof scripts over the step contract (induction step and base of the per-window budget argument); the induction principle itself (R counts admitted steps) is the usual meta-argument']
 
 
-def ext_monotonic(ex, args, kw):
-    """time.monotonic(): positive, non-decreasing (ghost clock g.now)"""
-    now = gget(ex, 'now')
-    r = RealS.fresh('monotonic')
-    ex.path.assume(z3.And(r.e > 0, r.e >= now.e))
-    gset(ex, 'now', r)
+def ext_create_worker(ex, args, kw):
+    """Pool._create_worker_process(i): assumed -- forks once, appends one
+    worker handle with index i to the pool list; touches nothing else"""
+    self = args[0]
+    gset(ex, 'forks', SV(IntS, gget(ex, 'forks').e + 1))
+    pool = ex.path.read_field(self, '_pool')
+    wk = SRef(ref('WorkerP'), ex.path.new_id())
+    ex.path.write_field(wk, 'index', args[1])
+    from pyvc.builtins_impl import container_method
+    container_method(ex, pool, 'append', [wk], {})
+    return wk
+
+
+def ext_avail_index(ex, args, kw):
+    r = IntS.fresh('avail')
     return r
 
 
-def build(w):
-    w.cls('g', fields={'now': RealS})
-    w.cls('restart_state', module='common',
-          fields={'maxR': opt(IntS), 'maxT': RealS, 'R': IntS, 'T': opt(RealS)})
-    w.externals['time.monotonic'] = ext_monotonic
+BAD = '(at(exitcodes, k) is None or (at(exitcodes, k) != 0 and at(exitcodes, k) != 155))'
 
-    step = Contract(
-        'common.restart_state.step', prop=PROP,
-        params={'self': ref('restart_state'), 'now': opt(RealS)},
+
+def build(w):
+    ps.declare(w)
+    step = ps.step_contract(PROP)
+    init = ps.init_rs_contract(PROP)
+
+    repopulate = Contract(
+        'pool.Pool._repopulate_pool', prop=PROP,
+        params={'self': ref('Pool'), 'exitcodes': list_of(opt(IntS))},
+        externals={'pool.Pool._create_worker_process': ext_create_worker,
+                   'pool.Pool._avail_index': ext_avail_index},
         requires={
-            'R_nonneg': 'self.R >= 0',
-            'maxT_pos': 'self.maxT > 0',
-            'now_pos': 'now is None or now > 0',
-            'clock_pos': 'g.now > 0',
-            'T_past': 'self.T is None or (0 < self.T and (self.T <= now if now is not None else self.T <= g.now))',
-            'maxR_nonneg': 'self.maxR is None or self.maxR >= 0',
+            'limiter_wf': 'self.restart_state.R >= 0 and self.restart_state.maxT > 0 and g.now > 0 and '
+                          '(self.restart_state.maxR is None or self.restart_state.maxR >= 0) and '
+                          '(self.restart_state.T is None or (0 < self.restart_state.T and self.restart_state.T <= g.now))',
+            'lens': 'len(self._pool) >= 0 and len(exitcodes) >= 0',
         },
-        modifies=['self.R', 'self.T', 'g.now'],
-        lets={
-            't': 'now if now is not None else g.now',
-            'expired': 'old(self.T) is not None and t - val(old(self.T)) >= self.maxT',
-            'exhausted': 'not expired and self.maxR is not None and self.maxR != 0 and old(self.R) >= self.maxR',
-        },
+        modifies=['self.restart_state.R', 'self.restart_state.T', 'g.now', 'g.steps', 'g.forks',
+                  'self._pool.*', 'WorkerP.index'],
+        lets={'missing': 'self._processes - old(len(self._pool))'},
+        # spec function nbad(k) = number of abnormal / unknown exit statuses
+        # among the first k missing workers, defined by recursion on k
+        defs={'nbad': ('k', 'implies(k >= 0, g.nbad[0] == 0 and g.nbad[k + 1] == g.nbad[k] + '
+                            'ite((k >= len(exitcodes) and len(exitcodes) > 0) or '
+                            '(k < len(exitcodes) and %s), 1, 0))' % BAD)},
+        instantiate={'nbad': ['0']},
+        loops={0: {
+            'instantiate': {'nbad': ['_i']},
+            'inv': {
+                'forks_count': 'g.forks == old(g.forks) + _i',
+                'steps_exactly_for_abnormal_exits': 'g.steps == old(g.steps) + g.nbad[_i]',
+                'limiter_wf': 'self.restart_state.R >= 0 and g.now > 0 and (self.restart_state.T is None or '
+                              '(0 < self.restart_state.T and self.restart_state.T <= g.now))',
+                'pool_grows': 'len(self._pool) == old(len(self._pool)) + _i',
+                'nbad_nonneg': 'g.nbad[_i] >= 0',
+            },
+            'modifies': ['self.restart_state.R', 'self.restart_state.T', 'g.now', 'g.steps', 'g.forks',
+                         'self._pool.*', 'WorkerP.index'],
+        }},
         ensures={
-            'expired_restarts_count': 'implies(expired, self.T == t and self.R == 1)',
-            'admitted_counts': 'implies(not expired, self.R == old(self.R) + 1 and '
-                               '(self.T == old(self.T) if old(self.T) is not None else self.T == t))',
-            'never_admits_beyond_budget': 'not exhausted',
-            'clock_monotone': 'g.now >= old(g.now)',
+            'forks_bounded_by_missing': 'g.forks - old(g.forks) <= ite(missing > 0, missing, 0)',
+            'clean_exits_consume_no_budget':
+                'implies(g.forks - old(g.forks) == missing and missing > 0, g.steps == old(g.steps) + g.nbad[missing])',
+            'restored_when_running': 'implies(self._state == 0 and missing > 0, len(self._pool) == self._processes)',
         },
         raises={'RestartFreqExceeded': {
-            'only_when_exhausted': 'exhausted',
-            'count_reset': 'self.R == 0',
-            'window_kept': 'self.T == old(self.T)',
+            'raised_instead_of_forking': 'g.forks - old(g.forks) < missing',
+            'only_after_an_abnormal_exit': 'g.steps > old(g.steps)',
         }},
     )
-    init = Contract(
-        'common.restart_state.__init__', prop=PROP,
-        params={'self': ref('restart_state'), 'maxR': opt(IntS), 'maxT': RealS},
-        modifies=['self.maxR', 'self.maxT', 'self.R', 'self.T'],
-        ensures={'budget': 'self.maxR == maxR and self.maxT == maxT',
-                 'fresh_window': 'self.R == 0 and self.T is None'},
+
+    on_ack = Contract(
+        'pool.ResultHandler._make_methods.<locals>.on_ack', prop=PROP,
+        params={'job': IntS, 'i': opt(IntS), 'time_accepted': RealS, 'pid': IntS, 'synqW_fd': opt(IntS)},
+        free={'restart_state': ref('restart_state'), 'cache': dict_of(IntS, ref('Job'))},
+        externals={'pool.ApplyResult._ack': lambda ex, a, k: SNone()},
+        modifies=['restart_state.R', 'Job.*', 'cache.*'],
+        ensures={'budget_restored_on_acceptance': 'restart_state.R == 0'},
     )
-    return [step, init]
+
+    body = Contract(
+        'pool.Supervisor.body', prop=PROP,
+        params={'self': ref('Supervisor')},
+        externals={'pool.Pool._maintain_pool': ext_maintain_probe,
+                   'pool.Pool.close': lambda ex, a, k: SNone(),
+                   'pool.Pool.join': lambda ex, a, k: SNone()},
+        requires={'procs': 'self.pool._processes >= 1'},
+        modifies=['self.pool.restart_state', 'g.now', 'g.sleeps', 'g.burst_ticks', 'g.normal_ticks',
+                  'restart_state.*', 'g.steps', 'g.forks'],
+        loops={
+            0: {'inv': {'burst_limiter_in_force':
+                        'fresh(self.pool.restart_state) and self.pool.restart_state.maxR == 10 * self.pool._processes '
+                        'and self.pool.restart_state.maxT == 1',
+                        'no_normal_tick_yet': 'g.normal_ticks == old(g.normal_ticks)',
+                        'prev': 'prev_state == old(self.pool.restart_state) and pool == self.pool'},
+                'modifies': ['g.now', 'g.sleeps', 'g.burst_ticks', 'restart_state.R', 'restart_state.T', 'g.steps', 'g.forks']},
+            1: {'inv': {'configured_limiter_restored': 'self.pool.restart_state == old(self.pool.restart_state)',
+                        'pool': 'pool == self.pool'},
+                'modifies': ['g.now', 'g.sleeps', 'g.normal_ticks', 'restart_state.R', 'restart_state.T', 'g.steps', 'g.forks']},
+        },
+        ensures={'configured_limiter_restored': 'self.pool.restart_state == old(self.pool.restart_state)'},
+        raises={'RestartFreqExceeded': {'t': 'True'}},
+    )
+    w.classes['g'].fields.update({'burst_ticks': IntS, 'normal_ticks': IntS})
+
+    common = {'wf': 'rs.R >= 0 and rs.maxT > 0 and g.now > 0 and rs.maxR is not None and rs.maxR >= 1'}
+    # induction step of "at most max_restarts replacements are admitted within
+    # one window and the next one raises": with R == number admitted so far in
+    # this window (R is incremented by exactly one per admitted step and reset
+    # only by expiry, on_ack or the raise), a step inside the window is admitted
+    # iff R < maxR and otherwise raises without counting.
+    window = Contract(
+        'lemmas_C11.window_step', prop=PROP,
+        params={'rs': ref('restart_state')},
+        requires=dict(common, window_open='rs.T is not None and 0 < rs.T and rs.T <= g.now'),
+        modifies=['rs.R', 'rs.T', 'g.now', 'g.steps'],
+        lets={'inside': 'g.now - val(old(rs.T)) < rs.maxT'},
+        ensures={
+            'admitted_only_below_budget': 'implies(inside, old(rs.R) < rs.maxR)',
+            'admitted_is_counted': 'implies(inside, rs.R == old(rs.R) + 1 and rs.T == old(rs.T))',
+            'expiry_starts_afresh': 'implies(not inside, rs.R == 1 and rs.T == g.now)',
+        },
+        raises={'RestartFreqExceeded': {
+            'only_at_budget': 'inside and old(rs.R) >= rs.maxR',
+            'not_counted': 'rs.R == 0 and rs.T == old(rs.T)',
+        }},
+    )
+    first = Contract(
+        'lemmas_C11.first_step', prop=PROP,
+        params={'rs': ref('restart_state')},
+        requires=dict(common, no_window='rs.T is None and rs.R == 0'),
+        modifies=['rs.R', 'rs.T', 'g.now', 'g.steps'],
+        ensures={'window_opened_by_first_restart': 'rs.T == g.now and rs.R == 1'},
+    )
+    return [step, init, repopulate, on_ack, body, window, first]
+
+
+def ext_maintain_probe(ex, args, kw):
+    """Pool._maintain_pool() as seen from Supervisor.body: counts the tick
+    under the limiter that is installed at that moment (ghost), may raise
+    RestartFreqExceeded, may change the limiter's counters"""
+    pool = args[0]
+    rs = ex.path.read_field(pool, 'restart_state')
+    is_burst = rs.id >= ex.path.alloc0
+    if ex.path.decide(is_burst):
+        gset(ex, 'burst_ticks', SV(IntS, gget(ex, 'burst_ticks').e + 1))
+    else:
+        gset(ex, 'normal_ticks', SV(IntS, gget(ex, 'normal_ticks').e + 1))
+    ex.path.havoc_field_at(rs, 'R')
+    ex.path.havoc_field_at(rs, 'T')
+    if ex.path.choose(2) == 1:
+        raise_exc(ex, 'RestartFreqExceeded')
+    return SNone()
+
+MANIFEST_ENTRY = {
+    'text': 'Proof (unbounded, all inputs): restart_state.step is verified against a three-case postcondition taken from the '
+            'statement (expiry restarts the count; at most max_restarts admitted per window, the next raises and is not counted; '
+            'first restart opens the window) for all R, T, maxR, maxT, now; _repopulate_pool is proved (loop invariant, all pool '
+            'sizes and exit-code lists) to call step exactly once per missing worker with an abnormal or unknown status, before '
+            'forking, and to fork nothing in the iteration that raises; on_ack resets the count; Supervisor.body installs the '
+            '10-per-slot-per-second burst limiter for the start-up rounds and restores the configured one. The per-window budget '
+            'argument is closed by two proof scripts over the step contract (induction base and step).',
+    'note': 'Assumes: clock arithmetic exact (reals), monotonic() positive and non-decreasing, _create_worker_process forks once '
+            'and does not touch the limiter (assumed contract), handlers atomic w.r.t. each other. Nothing of C11 is out of reach.',
+}
